@@ -280,15 +280,24 @@ def n_install_ninja(sym: str) -> bool:
 from typing import List
 
 
-def h_header_dir(s: str) -> bool:
+def h_header_dir(k: int) -> bool:
     """an installed header directory with files in nested subdirectories (include/a.h,
-    include/<s>/b.h, include/det/in/c.h): install copies them into the include root keeping the
-    relative paths (doppel -ipN -C <dir> <relative paths> <dest>), and uninstall removes exactly
-    the files that command creates
-    pre: len(s) == N and no_ctl(s) and _name_ok(s)
-    pre: not (KF_QUOTE and chr(39) in s)
+    include/<s>/b.h, include/det/in/c.h; <s> one of four concrete names -- a symbolic name makes
+    relpath's component comparisons explode, and single symbolic names are covered by
+    m_install_make): install copies them into the include root keeping the relative paths
+    (doppel -ipN -C <dir> <relative paths> <dest>), and uninstall removes exactly the files that
+    command creates
+    pre: 0 <= k < 4
     post: _
     """
+    if k == 0:
+        s = 'd'
+    elif k == 1:
+        s = 'd e'
+    elif k == 2:
+        s = 'x$y'
+    else:
+        s = '%#'
     env = ENV
     build = BuildInputs(env, Path('build.bfg', Root.srcdir))
     rels = ['a.h', s + '/b.h', 'det/in/c.h']
@@ -304,15 +313,10 @@ def h_header_dir(s: str) -> bool:
     unin = _recipe_argvs(mk, 'uninstall', cmdline)
     if inst is None or unin is None or len(inst) != 1 or len(unin) != 1:
         return R(False)
-    a = inst[0]
     dest = '/stage/usr/local/include'
-    ok = a[0] == 'doppel' and '-C' in a and a[-1] == dest
-    if not ok:
-        return R(False)
-    k = a.index('-C')
-    ok = a[k + 1] == '/srcdir/include' and a[k + 2:-1] == rels and 'N' in a[k - 1] and 'p' in a[k - 1]
-    created = [dest + '/' + r for r in a[k + 2:-1]]
-    ok = ok and unin[0][:2] == ['rm', '-f'] and unin[0][2:] == created
+    want_i = ['doppel', '-m', '644', '-ipN', '-C', '/srcdir/include'] + rels + [dest]
+    want_u = ['rm', '-f'] + [dest + '/' + r for r in rels]
+    ok = inst[0] == want_i and unin[0] == want_u
     return R(ok)
 
 
